@@ -9,6 +9,8 @@ drive : every operation the class offers, on one, two or three operands over a c
 judge : Trace_Tensor (TLC): to_dense() is the denotation PtDense(structure) computed by the
         specification; results match torch on dense; every result structure -- and (hook)
         every PatternedTensor built inside the library -- satisfies the representation invariant.
+part axis_algebra (harness/props/c06_axes.py): Axis.unify / antiunify / stride / index / freshen on every pair of typed
+        axis lists TLC enumerates (MC_AxisAlg), judged by Trace_AxisAlg against their meaning for index maps.
 """
 from __future__ import annotations
 import itertools, json, math, warnings
@@ -458,6 +460,10 @@ def run(tier, seed):
         o.extra['cases_by_kind'] = kinds
         o.extra['operations_exercised'] = ops
         o.extra['raised_where_allowed'] = sum(1 for c in cases if c['kind'] == 'reshape' and c['out'] != 'ok')
+        # the algebra of axis terms behind all of these operations (unify / antiunify / stride / index), on every pair of
+        # typed axis lists TLC enumerates for a small catalogue of shapes (spec/AxisAlg.tla)
+        from . import c06_axes
+        c06_axes.run_part(o, tier, seed, work)
         o.sample(next(c for c in cases if c['kind'] == 'dense' and len(c['st']['vs']) >= 2))
     return o
 
